@@ -12,6 +12,8 @@
 #ifndef __GIVARO_poly1_sqrfree_INL
 #define __GIVARO_poly1_sqrfree_INL
 
+#include <givaro/givpower.h>
+
 namespace Givaro {
 
     template <class Domain>
@@ -21,7 +23,7 @@ namespace Givaro {
         GIVARO_ASSERT( (Fact !=0), "nul pointer");
 
         unsigned long count = 0;
-        Rep A,B,C,D,W,Z,Y;
+        Rep A,B,C,D,W,Y;
         Type_t lc;
         leadcoef(lc, P);
         init(Fact[count], 0, lc);
@@ -39,31 +41,55 @@ namespace Givaro {
         // write(cout << "Gcd/lc:", C) << endl;
 
         if (areEqual(C, one)) {
-            assign(W, A);
+            assign(Fact[count], A);
+            return Nfact = ++count;
         }
-        else {
-            div(W, A, C);
-            // write(cout << "W:", W) << endl;
-            div(Y, B, C);
-            // write(cout << "Y:", Y) << endl;
-            diff(Z, W);
-            // write(cout << "W':", Z) << endl;
-            sub(Z, Y, Z);
-            while (!isZero(Z))
-            {
-                gcd(Fact[count], W, Z);
-                // write(cout << "L" << count << ":", Fact[count]) << endl;
-
-                div(C, W, Fact[count]); assign(W, C);
-                div(Y, Z, Fact[count]);
-                diff(Z, W);
-                sub(Z, Y, Z);
-                if (++count > Nfact) return Nfact;
+        // C = Gcd(A,A') holds every factor of multiplicity e with e-1 (e not a multiple of the
+        // characteristic) or e (e a multiple of the characteristic) ; W = A/C is the product of the former.
+        // The factors of multiplicity exactly count+1 are those of W that C has lost.
+        Degree dg;
+        div(W, A, C);
+        while (degree(dg, W) > 0)
+        {
+            if (count >= Nfact) return Nfact;
+            gcd(Y, W, C);
+            div(Fact[count], W, Y);
+            assign(W, Y);
+            divin(C, Y);
+            ++count;
+        }
+        if (degree(dg, C) > 0)
+        {
+            // Positive characteristic p : what is left of C is a p-th power, G(X^p) = (G~)^p where G~ has the
+            // p-th roots of the coefficients of G. Decompose G~ ; multiplicities are multiplied by p.
+            Integer ip, iq;
+            _domain.characteristic(ip);
+            _domain.cardinality(iq);
+            GIVARO_ASSERT( (ip > 0), "non constant Gcd(A,A') left over in characteristic 0");
+            const size_t p = (size_t)(uint64_t)ip;
+            Rep G; G.resize( (size_t)dg.value()/p + 1 );
+            for(size_t j=0; j<G.size(); ++j) {
+                _domain.assign(G[j], C[j*p]);
+                for(Integer t = iq/ip; t > 1; t /= ip) {  // a -> a^(q/p) inverts the Frobenius map
+                    Type_t r; dom_power(r, G[j], (uint64_t)p, _domain);
+                    _domain.assign(G[j], r);
+                }
+            }
+            size_t m = Nfact/p;
+            if (m == 0) return Nfact;
+            std::vector<Rep> H(m);
+            sqrfree(m, &H[0], G);
+            for(size_t j=0; j<m; ++j) {
+                const size_t slot = p*(j+1)-1;
+                if (slot < count)
+                    mulin(Fact[slot], H[j]);
+                else {
+                    for( ; count < slot; ++count) assign(Fact[count], one);
+                    assign(Fact[count++], H[j]);
+                }
             }
         }
-        assign(Fact[count], W);
-        //write(cout << "L" << count << ":", Fact[count]) << endl;
-        return Nfact = ++count;
+        return Nfact = count;
     }
 
 } // Givaro
